@@ -572,7 +572,14 @@ fn gen_sj(rng: &mut Rng, depth: usize) -> serde_json::Value {
 			0 => S::Number(edge!(rng, [u64::MAX, 0, 1 << 63, (1 << 53) + 1], rng.next()).into()),
 			1 => S::Number(edge!(rng, [i64::MIN, -1, i64::MIN + 1], -(rng.next() as i64).abs()).into()),
 			_ => {
-				let f = match rng.below(4) {
+				let f = match rng.below(5) {
+					// floats whose shortest spelling is an integer mantissa with an exponent (1e16, -4e18, 2e-7 ...) or an
+					// integer followed by .0: a float stays a float
+					4 => {
+						let d = (1 + rng.below(9)) as f64;
+						let x = d * 10f64.powi(rng.range(-8, 23) as i32);
+						if rng.chance(1, 3) { -x } else { x }
+					}
 					0 => *rng.pick(&[-0.0, 0.0, 5e-324, f64::MAX, f64::MIN_POSITIVE, 1e300, 1e-300, 0.1, 1e21, 123456789012345680000.0, 3.7557363180253596e-134]),
 					1 => f64::from_bits(1 + rng.next() % ((1u64 << 52) - 1)),
 					_ => {
